@@ -1,6 +1,6 @@
-(** Proofs about the group-population model [Group] and the numpy list models [Np]. *)
+(** Proofs about the group-population model [Group] (numpy list lemmas are in NpProofs). *)
 From Coq Require Import String ZArith List Bool Arith Lia Sorting.Permutation Sorting.Sorted.
-From Verif Require Import Base Np Group.
+From Verif Require Import Base Np Group GroupSpec NpProofs.
 Import ListNotations.
 Open Scope nat_scope.
 
@@ -10,4 +10,140 @@ Lemma bubble_app sim c1 c2 x :
 Proof.
   revert x; induction c1 as [|pr c1 IH]; intros x; cbn; [reflexivity|].
   destruct (transform sim pr x); cbn; auto.
+Qed.
+
+(** ** the arrays of a population as maps over the persons 0..n-1 *)
+
+Lemma ids_map p : g_ids p = map (group_of p) (seq 0 (npersons p)).
+Proof. unfold group_of, npersons. apply as_map. Qed.
+
+Lemma arr_map {A} p (a : list A) d :
+  length a = npersons p -> a = map (fun i => nth i a d) (seq 0 (npersons p)).
+Proof. intros <-. apply as_map. Qed.
+
+Lemma has_role_map p r :
+  wf_pop p -> has_role p r = map (in_role p (Some r)) (seq 0 (npersons p)).
+Proof.
+  intros [_ Hl]. unfold has_role, in_role, role_of.
+  rewrite (as_map (g_roles p) 0) at 1. rewrite map_map, Hl. reflexivity.
+Qed.
+
+Lemma wf_group_lt p i : wf_pop p -> i < npersons p -> group_of p i < g_count p.
+Proof.
+  intros [H _] Hi. rewrite Forall_forall in H. apply H. apply nth_In. exact Hi.
+Qed.
+
+Lemma wf_Forall_seq p (f : nat -> bool) :
+  wf_pop p -> Forall (fun i => group_of p i < g_count p) (filter f (seq 0 (npersons p))).
+Proof.
+  intros W. apply Forall_filter. rewrite Forall_forall. intros i Hi. apply in_seq in Hi.
+  apply wf_group_lt; [exact W|lia].
+Qed.
+
+Lemma filter_true {A} (l : list A) : filter (fun _ => true) l = l.
+Proof. induction l; cbn; congruence. Qed.
+
+Lemma members_with_role_alt p role g :
+  members_with_role p role g =
+  filter (fun i => group_of p i =? g) (filter (in_role p role) (seq 0 (npersons p))).
+Proof. unfold members_with_role, members. apply filter_comm. Qed.
+
+Lemma members_with_role_None p g : members_with_role p None g = members p g.
+Proof. unfold members_with_role. cbn. apply filter_true. Qed.
+
+(** ** sum, nb_persons, any *)
+
+Lemma sum_ok p array role :
+  wf_pop p -> length array = npersons p ->
+  sum p array role =
+  Ok (map (fun g => zsum (map (fun i => nth i array 0%Z) (members_with_role p role g)))
+          (seq 0 (g_count p))).
+Proof.
+  intros W Hl. unfold sum, check_size. rewrite Hl, Nat.eqb_refl. cbn [bind].
+  destruct role as [r|].
+  - rewrite (has_role_map p r W), (ids_map p), (arr_map p array 0%Z Hl), !mask_select_map.
+    rewrite bincount_maps by (apply wf_Forall_seq; exact W).
+    f_equal. apply map_ext. intros g. rewrite members_with_role_alt.
+    rewrite <- (arr_map p array 0%Z Hl). reflexivity.
+  - rewrite (ids_map p), (arr_map p array 0%Z Hl).
+    rewrite bincount_maps.
+    + f_equal. apply map_ext. intros g. rewrite members_with_role_None.
+      rewrite <- (arr_map p array 0%Z Hl). reflexivity.
+    + rewrite <- (filter_true (seq 0 (npersons p))). apply wf_Forall_seq; exact W.
+Qed.
+
+Lemma zsum_b2z (f : nat -> bool) l :
+  zsum (map (fun i => b2z (f i)) l) = Z.of_nat (length (filter f l)).
+Proof.
+  induction l as [|a l IH]; [reflexivity|]. cbn [map zsum fold_right filter].
+  fold (zsum (map (fun i => b2z (f i)) l)). rewrite IH.
+  destruct (f a); cbn [b2z length]; lia.
+Qed.
+
+Lemma nb_persons_ok p role :
+  wf_pop p ->
+  nb_persons p role =
+  Ok (map (fun g => Z.of_nat (length (members_with_role p role g))) (seq 0 (g_count p))).
+Proof.
+  intros W. unfold nb_persons. destruct role as [r|].
+  - rewrite sum_ok; [|exact W|].
+    + f_equal. apply map_ext. intros g. rewrite members_with_role_None.
+      rewrite (has_role_map p r W), map_map.
+      rewrite (map_ext_in _ (fun i => b2z (in_role p (Some r) i))).
+      * apply zsum_b2z.
+      * intros i Hi. apply filter_In in Hi as [Hi _]. apply in_seq in Hi.
+        now rewrite nth_map_seq by lia.
+    + rewrite (has_role_map p r W), !map_length, seq_length. reflexivity.
+  - f_equal. rewrite (ids_map p), bincount_count_maps.
+    + apply map_ext. intros g. now rewrite members_with_role_None.
+    + rewrite <- (filter_true (seq 0 (npersons p))). apply wf_Forall_seq; exact W.
+Qed.
+
+Lemma zsum_pos_existsb (w : nat -> Z) l :
+  (forall i, In i l -> (0 <= w i)%Z) ->
+  (0 <? zsum (map w l))%Z = existsb (fun i => (0 <? w i)%Z) l.
+Proof.
+  induction l as [|a l IH]; intros H; [reflexivity|].
+  cbn [map zsum fold_right existsb]. fold (zsum (map w l)).
+  assert (Ha : (0 <= w a)%Z) by (apply H; now left).
+  assert (Hl : forall i, In i l -> (0 <= w i)%Z) by (intros; apply H; now right).
+  specialize (IH Hl).
+  assert (0 <= zsum (map w l))%Z.
+  { clear IH H. induction l as [|b l IH2]; [cbn; lia|].
+    cbn [map zsum fold_right]. fold (zsum (map w l)).
+    assert (0 <= w b)%Z by (apply Hl; now left).
+    assert (0 <= zsum (map w l))%Z by (apply IH2; intros; apply Hl; now right). lia. }
+  destruct (0 <? w a)%Z eqn:E1, (existsb (fun i => (0 <? w i)%Z) l) eqn:E2; cbn [orb];
+    rewrite ?Z.ltb_lt, ?Z.ltb_ge in *; lia.
+Qed.
+
+Lemma any_ok p array role :
+  wf_pop p -> length array = npersons p -> Forall (fun v => (0 <= v)%Z) array ->
+  any p array role =
+  Ok (map (fun g => existsb (fun i => (0 <? nth i array 0)%Z) (members_with_role p role g))
+          (seq 0 (g_count p))).
+Proof.
+  intros W Hl Hpos. unfold any. rewrite sum_ok by assumption. cbn [bind]. f_equal.
+  rewrite map_map. apply map_ext. intros g.
+  apply zsum_pos_existsb. intros i _.
+  destruct (Nat.lt_ge_cases i (length array)) as [Hi|Hi].
+  - rewrite Forall_forall in Hpos. apply Hpos, nth_In, Hi.
+  - rewrite nth_overflow by exact Hi. lia.
+Qed.
+
+(** ** project *)
+
+Lemma project_ok p array role :
+  wf_pop p -> length array = g_count p ->
+  project p array role =
+  Ok (map (fun i => if in_role p role i then nth (group_of p i) array 0%Z else 0%Z)
+          (seq 0 (npersons p))).
+Proof.
+  intros W Hl. unfold project, check_size. rewrite Hl, Nat.eqb_refl. cbn [bind].
+  rewrite (take_map array 0%Z) by (rewrite Hl; apply W). cbn [bind].
+  destruct role as [r|]; f_equal.
+  - rewrite (has_role_map p r W), (ids_map p), map_map.
+    rewrite (full_as_map (npersons p) 0%Z (seq 0 (npersons p))) by apply seq_length.
+    rewrite where_map. reflexivity.
+  - rewrite (ids_map p) at 1. rewrite map_map. reflexivity.
 Qed.
